@@ -127,12 +127,14 @@ def insert_one(name, defs, unmarked_only=False, middle=None):
         "second-half": f"implies({mid}, fresh({A}) and {A}.kind == 'FeatureBlock' and {A}.name == {b}.name and {A}.statements == {b}.statements0[{m} + 1:])",
     }
     if middle is True:  # the split case on its own: its clauses without the (quantified) case antecedent
-        ens = {"whole-list-middle": f"{F} == {PRE}{S0}[:{p} + 1] + {LK} + [{f}, {A}] + {S0}[{p} + 1:]",
-               "first-half": f"{b}.statements == {b}.statements0[:{m}]",
-               "second-half": f"fresh({A}) and {A}.kind == 'FeatureBlock' and {A}.name == {b}.name and {A}.statements == {b}.statements0[{m} + 1:]"}
+        ens = {"split": f"{F} == {PRE}{S0}[:{p} + 1] + {LK} + [{f}, {A}] + {S0}[{p} + 1:]"
+               f" and {b}.statements == {b}.statements0[:{m}]"
+               f" and fresh({A}) and {A}.kind == 'FeatureBlock' and {A}.name == {b}.name and {A}.statements == {b}.statements0[{m} + 1:]"}
     elif middle is False:
         for k_ in ("whole-list-middle", "first-half", "second-half"):
             ens.pop(k_)
+        # one clause for the four remaining cases (fewer obligations; each conjunct is the splice equation of its case)
+        ens = {"whole-list": " and ".join(f"({ens.pop('whole-list-' + k_)})" for k_ in ("unmarked", "alone", "top", "bottom")), **ens}
     for k, d in enumerate(D):
         # generated definitions first, in the order class / anchor / mark-class, each non-empty list followed by a fresh empty comment
         off = " + ".join(f"(len({e}) + 1 if {e} is not None and len({e}) > 0 else 0)" for e in D[:k]) or "0"
@@ -386,9 +388,9 @@ def insert_two(name, marked):
     tail = "" if marked == 1 else f" + [{fu}]"
     splice = lambda cut, cut2: f"{F} == {S0}[:{cut}] + {LK} + {gen} + {S0}[{cut2}:]{tail}"  # noqa: E731
     ens = {
-        "alone": f"implies({CB_} and {CA_}, {splice(p_, p_ + ' + 1')})",
-        "top": f"implies({CB_} and not {CA_}, {splice(p_, p_)})",
-        "bottom": f"implies(not {CB_} and {CA_}, {splice(p_ + ' + 1', p_ + ' + 1')})",
+        "whole-list": f"implies({CB_} and {CA_}, {splice(p_, p_ + ' + 1')})"
+        f" and implies({CB_} and not {CA_}, {splice(p_, p_)})"
+        f" and implies(not {CB_} and {CA_}, {splice(p_ + ' + 1', p_ + ' + 1')})",
         "marked-block": f"{b_}.statements == {b_}.statements0[:{m_}] + {b_}.statements0[{m_} + 1:]",
     }
     return contract(
